@@ -202,8 +202,10 @@ func (req *RPCRenewContractRequest) Validate(pk types.PublicKey, tip types.Chain
 	// host's locked collateral and the contract duration
 	minRenterAllowance := MinRenterAllowance(hp, req.Renewal.Collateral)
 	// collateral is risked for the entire contract duration
-	riskedCollateral := req.Prices.Collateral.Mul64(existing.Filesize).Mul64(duration)
-	storageCost := req.Prices.StoragePrice.Mul64(existing.Filesize).Mul64(req.Renewal.ProofHeight + ProofWindow - existing.ExpirationHeight)
+	// NOTE: the prices are host-chosen; products that do not fit saturate and
+	// are then refused by the overflow check below
+	riskedCollateral := mul64(mul64(req.Prices.Collateral, existing.Filesize), duration)
+	storageCost := mul64(mul64(req.Prices.StoragePrice, existing.Filesize), req.Renewal.ProofHeight+ProofWindow-existing.ExpirationHeight)
 	if contractValueOverflows(req.Renewal.Allowance, req.Renewal.Collateral, riskedCollateral, storageCost, req.Prices.ContractPrice, req.MinerFee, existing.RenterOutput.Value, existing.HostOutput.Value) {
 		return rpcBadRequestError("contract value is too large")
 	}
